@@ -12,6 +12,8 @@ a text is present, another version number, …) makes this proof fail.
 namespace GqlgenVerif.Props.C15Gen
 open GqlgenVerif.Apq
 
+set_option linter.unusedSimpArgs false
+
 variable {σ Text Hash : Type} [DecidableEq Hash]
 
 /-- For every request, cache implementation, cache state and hash function, the regenerated body
@@ -48,20 +50,36 @@ theorem gen_prog_is_step (H : Text → Hash) (H0 h0 : Hash) (C : CacheImpl σ Te
 example : (runProg (fun t : Nat => t % 10) 0 0 mapCache GqlgenVerif.Gen.ApqProg.prog mapEmpty
     ⟨some 13, .decoded 1 3⟩).map (·.out) = some (.run (some 13)) := by decide
 
-/-- The source facts the hand-written models rely on, pinned to the text they were written against:
-the extension key and mapstructure tags, `computeQueryHash` = hex of SHA-256 of the query bytes, and
-the bodies of `lru.New/Get/Add` (plain delegation to hashicorp's LRU `Get`/`Add`), `MapCache.Get/Add`
-(a Go map) and `NoCache.Get/Add`. -/
-theorem gen_facts_pinned :
+/-! The source facts the hand-written models rely on, pinned to the text they were written against. -/
+
+/-- the extension key and the mapstructure tags/types of the decoded struct -/
+theorem gen_extension_decoding_pinned :
     GqlgenVerif.Gen.ApqProg.extKey = "persistedQuery" ∧
     GqlgenVerif.Gen.ApqProg.shaField = "mapstructure:\"sha256Hash\" string" ∧
-    GqlgenVerif.Gen.ApqProg.versionField = "mapstructure:\"version\" int64" ∧
-    GqlgenVerif.Gen.ApqProg.hashBody = "b := sha256.Sum256([]byte(query)); return hex.EncodeToString(b[:])" ∧
+    GqlgenVerif.Gen.ApqProg.versionField = "mapstructure:\"version\" int64" := by
+  decide
+
+/-- `computeQueryHash` is the lower-case hex of the SHA-256 of the query bytes (what the harness sends as
+the correct hash, and what `H` is instantiated with in the driver) -/
+theorem gen_hash_is_sha256_hex :
+    GqlgenVerif.Gen.ApqProg.hashBody = "b := sha256.Sum256([]byte(query)); return hex.EncodeToString(b[:])" := by
+  decide
+
+/-- `lru.LRU` is plain delegation to hashicorp's `lru.Cache` `Get` / `Add` (modelled by `lruCache`) -/
+theorem gen_lru_delegates :
     GqlgenVerif.Gen.ApqProg.lruNew = "cache, err := lru.New[string, T](size)" ∧
     GqlgenVerif.Gen.ApqProg.lruGet = "return l.lru.Get(key)" ∧
-    GqlgenVerif.Gen.ApqProg.lruAdd = "l.lru.Add(key, value)" ∧
+    GqlgenVerif.Gen.ApqProg.lruAdd = "l.lru.Add(key, value)" := by
+  decide
+
+/-- `MapCache` is a Go map read and written directly (modelled by `mapCache`) -/
+theorem gen_mapcache_is_go_map :
     GqlgenVerif.Gen.ApqProg.mapCacheGet = "v, ok := m[key]; return v, ok" ∧
-    GqlgenVerif.Gen.ApqProg.mapCacheAdd = "m[key] = value" ∧
+    GqlgenVerif.Gen.ApqProg.mapCacheAdd = "m[key] = value" := by
+  decide
+
+/-- `NoCache` never finds anything and stores nothing (modelled by `noCache`) -/
+theorem gen_nocache_is_empty :
     GqlgenVerif.Gen.ApqProg.noCacheGet = "var val T; return val, false" ∧
     GqlgenVerif.Gen.ApqProg.noCacheAdd = "" := by
   decide
